@@ -36,7 +36,9 @@ def all_leaves():
 
 
 # ----------------------------------------------------------------------------- trees
-# ("lit", tok) | ("neg", e) | ("not", e) | ("bin", op, l, r) | ("get", e) | ("or", e, lit) | ("list", [e..])
+# ("lit", tok) | ("neg", e) | ("not", e) | ("bin", op, l, r) | ("get", e) | ("or", e, fallback) | ("list", [e..])
+# the fallback of `or` is a tree of its own (evaluated only when the primary is nil, which a number never is);
+# ("first", e) = `([e][0])`, a constant nested in a list, occurs inside fallbacks only
 def lit(tok):
     return ("lit", tok)
 
@@ -66,7 +68,7 @@ def leaves_of(e, acc):
     t = e[0]
     if t == "lit":
         acc.append(e[1])
-    elif t in ("neg", "not", "get"):
+    elif t in ("neg", "not", "get", "first"):
         leaves_of(e[1], acc)
     elif t == "or":
         leaves_of(e[1], acc)
@@ -101,6 +103,8 @@ def render(e, names):
         return "(!%s)" % render(e[1], names)
     if t == "get":
         return "(get %s)" % render(e[1], names)
+    if t == "first":
+        return "([%s][0])" % render(e[1], names)
     if t == "or":
         return "(%s or %s)" % (render(e[1], names), render(e[2], names))
     if t == "list":
@@ -137,6 +141,53 @@ def mixed_program(e):
 
 
 # ----------------------------------------------------------------------------- generation
+def failing_constants():
+    """per kind: literal expressions of that kind whose evaluation fails (zero divisor, overflow, shift out of range)"""
+    L = lit
+    imin = ("bin", "sub", ("neg", L("I2147483647")), L("I1"))
+    return {
+        "I": [("bin", "div", L("I1"), L("I0")), ("bin", "rem", L("I1"), L("I0")), ("bin", "add", L("I2147483647"), L("I1")), ("bin", "shl", L("I1"), L("I32")),
+              ("neg", imin), ("bin", "mul", L("I65536"), L("I65536")), ("bin", "div", imin, ("neg", L("I1")))],
+        "B": [("bin", "div", L("B1"), L("B0")), ("bin", "add", L("B%d" % nc.I128_MAX), L("B1")), ("bin", "rem", L("B7"), L("I0"))],
+        "Y": [("bin", "div", L("Y1"), L("Y0")), ("bin", "add", L("Y255"), L("Y1")), ("bin", "shl", L("Y1"), L("Y8"))],
+        "F": [("bin", "div", L(nc.f2bits(1.5)), L("Y0")), ("bin", "rem", L(nc.f2bits(1.5)), L("I0"))],
+    }
+
+
+def or_fallback_trees():
+    """`a or b` evaluates b only when a is nil: a fallback that is a failing constant does not make the expression fail.
+    Primary: a literal / a folded expression of the kind; fallback: every failing constant of the kind, bare, nested one
+    `or` deeper, inside a list, and under an operator of the fallback.  Run in every tier."""
+    L = lit
+    prim = {"I": [L("I2"), ("bin", "mul", L("I3"), L("I4"))], "B": [L("B2")], "Y": [L("Y2")], "F": [L(nc.f2bits(0.5))]}
+    out = []
+    for k, fails_k in failing_constants().items():
+        for j, fb in enumerate(fails_k):
+            p = prim[k][j % len(prim[k])]
+            out.append(("or", p, fb))
+            if j < 2:
+                out.append(("or", p, ("first", fb)))
+                out.append(("or", p, ("or", prim[k][0], fb)))
+                out.append(("or", p, ("bin", "add", fb, prim[k][0])))
+                out.append(("bin", "add", ("or", p, fb), prim[k][0]))
+                out.append(("list", [("or", p, fb), prim[k][0]]))
+                out.append(("or", ("or", p, fb), fb))
+        # control: a failing PRIMARY fails in both renderings
+        out.append(("or", fails_k[0], prim[k][0]))
+    return out
+
+
+def has_failing_fallback(e):
+    t = e[0]
+    if t == "lit":
+        return False
+    if t == "list":
+        return any(has_failing_fallback(x) for x in e[1])
+    if t == "or":
+        return e[2][0] != "lit" or has_failing_fallback(e[1])
+    return any(has_failing_fallback(x) for x in e[1:] if isinstance(x, tuple))
+
+
 def gen_trees(ctx):
     rng = ctx.rng
     quick = ctx.quick()
@@ -180,6 +231,7 @@ def gen_trees(ctx):
     trees += [("bin", "shl", L("I1"), L("I31")), ("bin", "shl", L("I3"), L("I31")), ("bin", "shl", L("Y255"), L("Y1")),
               ("bin", "shl", L("B3"), L("I127")), ("bin", "shl", ("neg", L("I1")), L("I31")), ("bin", "shl", L("Y255"), L("I1")),
               ("bin", "shl", L("I1"), L("I30")), ("bin", "shl", ("neg", L("I2")), L("I31"))]
+    trees += or_fallback_trees()
     n_special = len(trees)
     # depth 1: every folded operator x every pair of leaves; unary minus on every leaf
     d1 = [("bin", op, L(a), L(b)) for op in FOLDED_OPS for a in full for b in full]
@@ -233,6 +285,22 @@ def gen_trees(ctx):
             d3.append(("list", [rnd(2, False) for _ in range(rng.randint(1, 3))]))
         elif r < 0.94:
             d3.append(("bin", rng.choice(UNFOLDED_OPS), rnd(2, False), rnd(2, False)))
+        elif r < 0.97:
+            # `a or b` over one kind: the fallback is a random tree or a failing constant, bare or nested in a list / a further `or`
+            k = rng.choice("IIBYF")
+            pool = [t for t in full if t[0] == k and (k != "I" or nc.ival(t) <= nc.I32_MAX)]
+            ops = nc.ARITH if k == "F" else FOLDED_OPS
+
+            def same_kind(depth):
+                if depth == 0 or rng.random() < 0.3:
+                    return L(rng.choice(pool))
+                if rng.random() < 0.15:
+                    return ("neg", same_kind(depth - 1))
+                return ("bin", rng.choice(ops), same_kind(depth - 1), same_kind(depth - 1))
+            fb = rng.choice(failing_constants()[k]) if rng.random() < 0.5 else same_kind(2)
+            w = rng.random()
+            fb = ("first", fb) if w < 0.2 else ("or", same_kind(1), fb) if w < 0.4 else ("bin", rng.choice(nc.ARITH), fb, same_kind(1)) if w < 0.6 else fb
+            d3.append(("or", same_kind(1), fb))
         else:
             d3.append(("not", ("not", L(rng.choice(["Ttrue", "Tfalse"])))) if rng.random() < 0.5 else ("not", L(rng.choice(["Ttrue", "Tfalse"]))))
     trees += d3
@@ -318,7 +386,7 @@ def shape(e):
     t = e[0]
     if t == "lit":
         return nc.KIND_NAME[e[1][0]]
-    if t in ("neg", "not", "get"):
+    if t in ("neg", "not", "get", "first"):
         return "%s(%s)" % (t, shape(e[1]))
     if t == "or":
         return "or(%s)" % shape(e[1])
@@ -331,6 +399,8 @@ def classify(e, folded, unfolded):
     """canonical class of a disagreement between the two renderings (root cause, not the individual tree)"""
     c = core_tree(e) if e[0] != "list" else e
     s = sexp(c) if e[0] != "list" else " ".join(sexp(core_tree(x)) for x in e[1])
+    if folded == "REJECT" and not fails(unfolded) and has_failing_fallback(e):
+        return "folder-evaluates-unneeded-or-fallback"
     has_neg = "(neg" in s
     oversized = any(t[0] == "I" and nc.ival(t) > nc.I32_MAX for t in leaves_of(e, []))
     if oversized and folded in ("ERR", "PANIC") and not fails(unfolded):
